@@ -8,7 +8,7 @@ import string
 from .. import genparser
 from ..engine import AnalysisError, MechanismMissing, PropertySpec, norm
 from ..grammar import parse_grammar
-from ..pyutil import call_name, calls, const_str, is_name, literal, walk_local
+from ..pyutil import call_name, calls, const_str, inlined, is_name, literal, walk_local
 
 SYM = "src/pymoca/backends/sympy/generator.py"
 G4 = "src/pymoca/Modelica.g4"
@@ -36,6 +36,37 @@ def _format_calls(fn):
     return out
 
 
+def _locals_spelled_out(v):
+    """`"{a.b:s}({c:s})".format(**locals())` as the f-string it is: every field is an expression over the locals"""
+    if (isinstance(v, ast.Call) and isinstance(v.func, ast.Attribute) and v.func.attr == "format" and const_str(v.func.value) is not None
+            and not v.args and len(v.keywords) == 1 and v.keywords[0].arg is None and norm(v.keywords[0].value) == "locals()"):
+        values = []
+        for lit, field, _spec, _conv in string.Formatter().parse(const_str(v.func.value)):
+            if lit:
+                values.append(ast.Constant(value=lit))
+            if field:
+                try:
+                    values.append(ast.FormattedValue(value=ast.parse(field, mode="eval").body, conversion=-1, format_spec=None))
+                except SyntaxError:
+                    return v
+        return ast.JoinedStr(values=values)
+    return v
+
+
+def _is_operator_field(v) -> bool:
+    """the expression is the node's operator: `<x>.operator[.name]`, str() of it, or a translation of it that chooses between it and literals"""
+    while isinstance(v, ast.Call) and is_name(v.func, "str") and len(v.args) == 1:
+        v = v.args[0]
+    if isinstance(v, ast.IfExp):
+        alts = [v.body, v.orelse]
+        return all(_is_operator_field(a) or const_str(a) is not None for a in alts) and any(_is_operator_field(a) for a in alts)
+    while isinstance(v, ast.Attribute):
+        if v.attr == "operator":
+            return True
+        v = v.value
+    return False
+
+
 def _is_operand(v) -> bool:
     return any(isinstance(x, ast.Subscript) and norm(x.value) == "self.src" for x in ast.walk(v))
 
@@ -51,19 +82,39 @@ def r24_1(ctx, rep):
     for hname in ("exitExpression", "exitEquation"):
         fn = ctx.func(SYM, "%s.%s" % (CLS, hname), R)
         site = "%s:%s.%s" % (SYM, CLS, hname)
-        for tmpl, kw, call in _format_calls(fn):
-            fields = list(string.Formatter().parse(tmpl))
-            operands = [f for (_lit, f, _spec, _conv) in fields if f and f in kw and _is_operand(kw[f])]
-            has_op_field = any(f for (_l, f, _s, _c) in fields if f and f in kw and not _is_operand(kw[f]))
-            infix_literal = any(re.search(r"[-+*/]", lit or "") for (lit, _f, _s, _c) in fields)
+        # every string-building expression of the handler (str.format, f-string, %, +), with one-shot temporaries resolved so that
+        # `left = self.src[..]; f"({left}) ..."` and `"({left}) ...".format(left=self.src[..])` are the same template
+        seen = set()
+        for st in walk_local(fn):
+            if not isinstance(st, ast.Assign):
+                continue
+            v = st.value
+            if not (isinstance(v, ast.JoinedStr) or (isinstance(v, ast.BinOp) and isinstance(v.op, (ast.Add, ast.Mod)))
+                    or (isinstance(v, ast.Call) and isinstance(v.func, ast.Attribute) and v.func.attr == "format")):
+                continue
+            pieces = _template_pieces(_locals_spelled_out(v))
+            if pieces is None:
+                continue
+            pieces = [p_ if isinstance(p_, str) else inlined(p_, fn.body) for p_ in pieces]
+            tmpl = "".join(p_ if isinstance(p_, str) else "{%s}" % norm(p_) for p_ in pieces)
+            if tmpl in seen:
+                continue
+            seen.add(tmpl)
+            # a filled-in expression is the operator (the node's operator, possibly translated: `op if op != "^" else "**"`) or an operand
+            operands = [i for i, p_ in enumerate(pieces) if not isinstance(p_, str) and not _is_operator_field(p_)]
+            has_op_field = any(not isinstance(p_, str) and _is_operator_field(p_) for p_ in pieces)
+            infix_literal = any(isinstance(p_, str) and re.search(r"[-+*/]", p_) for p_ in pieces)
             if not operands or not (has_op_field or infix_literal):
                 continue
-            for f in operands:
+            for i in operands:
                 n += 1
-                ok = re.search(r"\(\s*\{%s(:[^}]*)?\}\s*\)" % re.escape(f), tmpl) is not None
-                rep.ob(R, site, "template %r operand {%s}" % (tmpl, f), ok,
-                       "operand `{%s}` is printed next to an operator without parentheses: the text `a + b` substituted into "
-                       "`{left} * {right}` changes the grouping of the expression" % f)
+                before = pieces[i - 1] if i > 0 and isinstance(pieces[i - 1], str) else ""
+                after = pieces[i + 1] if i + 1 < len(pieces) and isinstance(pieces[i + 1], str) else ""
+                ok = before.rstrip().endswith("(") and after.lstrip().startswith(")")
+                shape = "".join(p_ if isinstance(p_, str) else "{}" for p_ in pieces)
+                rep.ob(R, site, "template %r operand #%d" % (shape, 1 + sum(1 for p_ in pieces[:i] if not isinstance(p_, str))), ok,
+                       "operand `%s` is printed next to an operator without parentheses: the text `a + b` substituted into "
+                       "`{left} * {right}` changes the grouping of the expression" % norm(pieces[i])[:60])
     if n < 4:
         raise MechanismMissing(R, "fewer than 4 operand placeholders found in the infix templates")
 
@@ -524,18 +575,30 @@ def r24_13(ctx, rep):
     if fn is None:
         raise MechanismMissing(R, "SympyGenerator.exitExpression not found")
     site = SYM + ":SympyGenerator.exitExpression"
+    def _is_operator(v):
+        while isinstance(v, ast.Call) and is_name(v.func, "str") and len(v.args) == 1:
+            v = v.args[0]
+        return isinstance(v, ast.Attribute) and v.attr == "operator"
+
     ops = {st.targets[0].id for st in walk_local(fn) if isinstance(st, ast.Assign) and isinstance(st.targets[0], ast.Name)
-           and any(isinstance(y, ast.Attribute) and y.attr == "operator" for y in ast.walk(st.value))}
+           and _is_operator(st.value)}
+    # the names whose value is what the handler stores for the node (`self.src[tree] = src`)
+    stored = {st.value.id for st in walk_local(fn) if isinstance(st, ast.Assign) and isinstance(st.targets[0], ast.Subscript)
+              and norm(st.targets[0].value) == "self.src" and isinstance(st.value, ast.Name)}
     branches = [b for b in ast.walk(fn) if isinstance(b, ast.If) and "== 1" in norm(b.test) and "'-'" in norm(b.test)]
     if not branches or not ops:
         raise MechanismMissing(R, "unary +/- branch (or the local holding the operator) not found")
     n = 0
     for b in branches:
         for st in [x for s_ in b.body for x in ast.walk(s_)]:
-            if isinstance(st, ast.Assign) and isinstance(st.targets[0], ast.Name) and st.targets[0].id not in ops and any(
-                    isinstance(y, ast.Subscript) and norm(y.value) == "self.src" for y in ast.walk(st.value)):
+            if not isinstance(st, ast.Assign):
+                continue
+            t0 = st.targets[0]
+            is_store = (isinstance(t0, ast.Name) and t0.id in stored) or (isinstance(t0, ast.Subscript) and norm(t0.value) == "self.src")
+            value = inlined(st.value, b.body, keep=ops | stored)
+            if is_store and any(isinstance(y, ast.Subscript) and norm(y.value) == "self.src" for y in ast.walk(value)):
                 n += 1
-                pieces = _template_pieces(st.value) or []
+                pieces = _template_pieces(value) or []
                 exprs = [norm(p_) for p_ in pieces if not isinstance(p_, str)]
                 has_op = any(e in ops or any(e.startswith(o + " ") or e == o for o in ops) for e in exprs)
                 rep.ob(R, site, "`%s` carries the node's sign" % norm(st)[:60], has_op and len(exprs) >= 2,
